@@ -37,8 +37,6 @@ __CPROVER_ensures(IMPLIES(list != NULL && __CPROVER_return_value != KSI_OK, C04_
 __CPROVER_ensures(IMPLIES(list != NULL && __CPROVER_return_value == KSI_OK, !C04_RL_ERR(list)))
 /* the other list and the comparison record are untouched */
 __CPROVER_ensures(IMPLIES(list != NULL, C04_RL_OTHER_CALLS(list) == C04_RL_OLD_OTHER_CALLS(list) && C04_RL_OTHER_WANTED(list) == C04_RL_OLD_OTHER_WANTED(list)))
-__CPROVER_ensures(IMPLIES(C04_RL_IS_A(list), IFF(g_c04_rl.b_last_wanted, __CPROVER_old(g_c04_rl.b_last_wanted))))
-__CPROVER_ensures(IMPLIES(list == &g_c04_extLinks, IFF(g_c04_rl.a_last_wanted, __CPROVER_old(g_c04_rl.a_last_wanted))))
 __CPROVER_ensures(g_c04_rl.rl.compared == __CPROVER_old(g_c04_rl.rl.compared) && g_c04_rl.rl.unequal == __CPROVER_old(g_c04_rl.rl.unequal)
 	&& g_c04_rl.a_err == (__CPROVER_old(g_c04_rl.a_err) || (C04_RL_IS_A(list) && __CPROVER_return_value != KSI_OK))
 	&& g_c04_rl.b_err == (__CPROVER_old(g_c04_rl.b_err) || (list == &g_c04_extLinks && __CPROVER_return_value != KSI_OK)))
